@@ -25,6 +25,10 @@ func TestC02Regress(t *testing.T) {
 		{"gtab.Read/GPOS", zeroSizeRecordTable(false, 1, 0x8000, 65535, 0)},
 		// kern: 20000 subtables of 14 bytes claiming 36000 pairs each (496 KB): 21 s of CPU time before the repair
 		{"kern.Read", overlappingKern(20000, 36000, 14)},
+		// GDEF 1.2, well-formed, sub-tables in the order mark glyph sets, glyph classes, mark attachment
+		// classes (two irregular class tables of 44 KB): Encode of the decoded table put the mark glyph
+		// sets last, beyond 64 KiB, and refused ("GDEF table too large")
+		{"gdef.Read", gdefSetsFirst(22000)},
 	}
 	for _, c := range cases {
 		tg := targetByName(c.target)
@@ -62,4 +66,20 @@ func TestC02RegressFiles(t *testing.T) {
 	if len(files) == 0 {
 		t.Skip("no saved inputs")
 	}
+}
+
+func gdefSetsFirst(n int) []byte {
+	cd := []byte{0, 1, 0, 0}
+	cd = be16(cd, n)
+	for i := 0; i < n; i++ {
+		cd = be16(cd, 1+i%3)
+	}
+	b := []byte{0, 1, 0, 2}
+	b = be16(b, 22) // glyph class definitions
+	b = append(b, 0, 0, 0, 0)
+	b = be16(b, 22+len(cd))               // mark attachment class definitions
+	b = be16(b, 14)                       // mark glyph sets
+	b = append(b, 0, 1, 0, 0, 0, 0, 0, 0) // format 1, no sets; padding
+	b = append(b, cd...)
+	return append(b, cd...)
 }
